@@ -39,7 +39,9 @@ func FormatSimple(input interface{}) string {
 		var v interface{}
 		switch field.Kind() {
 		case reflect.String:
-			v = fmt.Sprintf("%q", field.String())
+			// ParseSimple strips the quotation without unescaping - do
+			// not escape.
+			v = `"` + field.String() + `"`
 		default:
 			v = field
 		}
